@@ -1,6 +1,8 @@
 //! vh — runtime-monitoring harness for r-nacos (see /verif/DESIGN.md).
 //! Every sub-command links the real library built from /repo's working tree.
+mod c17;
 mod c20;
+mod grpcc;
 mod store;
 mod util;
 
@@ -17,6 +19,8 @@ fn main() {
     let r = match sub.as_str() {
         "c20" => c20::run(&args),
         "store-session" => store::run(&args),
+        "c17-func" => c17::run(&args),
+        "grpc-client" => grpcc::run(&args),
         _ => {
             eprintln!("unknown sub-command {}", sub);
             std::process::exit(2);
